@@ -60,10 +60,15 @@ func truncDec18(q *big.Rat) *big.Int {
 
 // roundDec18 rounds half-to-even to 18 fractional digits (as LegacyDec.Quo does) and returns value*10^18.
 func roundDec18(q *big.Rat) *big.Int {
+	// LegacyDec.Quo semantics, not exact rational rounding: the quotient is first truncated at 36
+	// decimal digits and only then rounded half-even to 18, so a value whose digits 19..36 are exactly
+	// 5000…0 followed by a non-zero tail is a tie for the code although it is above one half exactly.
 	n := new(big.Int).Mul(q.Num(), ten18)
-	quo, rem := new(big.Int).QuoRem(n, q.Denom(), new(big.Int))
-	twice := new(big.Int).Mul(rem, big.NewInt(2))
-	switch twice.CmpAbs(q.Denom()) {
+	n.Mul(n, ten18)
+	n.Quo(n, q.Denom())
+	quo, rem := new(big.Int).QuoRem(n, ten18, new(big.Int))
+	half := new(big.Int).Quo(ten18, big.NewInt(2))
+	switch rem.CmpAbs(half) {
 	case 1:
 		quo.Add(quo, big.NewInt(1))
 	case 0:
